@@ -3,7 +3,8 @@
    simulated device, configuration in `const` (must be a canonical configuration of the spec), events:
      Begin | Startup(o, r) | Term(v) | Sense(res) | Discover(o, v) | Connect(o, v) | Led(v) | Presence(v)
      | Release(o, v) | LlcAct(role, res) | Xchg(v) | RunEnd(res) | Listen(res) | Serve(v) | Return(res)
-   Every event carries the projected post-state (number of terminate() polls, number of callbacks, LED),
+   Every event carries the projected post-state (number of terminate() polls, number of callbacks, LED, the
+   kind of clf.target, the device field),
    which must equal the spec's; the contract invariants are step post-conditions. *)
 EXTENDS ClfConnect, Json, IOUtils, TLCExt
 
@@ -50,10 +51,11 @@ Match ==
                                  [] Ev.o = "card" -> Release("card", "card_rel") [] OTHER -> FALSE)
                               /\ Ev.r = B(cfg.rel[Ev.o])
       [] Ev.a = "LlcAct"   -> LlcActivate /\ Ev.o = role
-                              /\ Ev.r = (IF DeviceFails THEN "error" ELSE IF ActOk THEN "ok" ELSE "no")
+                              /\ Ev.r = (IF DeviceFails \/ (ListenFails /\ role = "target") THEN "error"
+                                          ELSE IF ActOk THEN "ok" ELSE "no")
       [] Ev.a = "Xchg"     -> IF pc = "run_first" THEN RunFirst /\ Ev.r = "T" ELSE RunXchg /\ Ev.r = B(envk > 0)
       [] Ev.a = "RunEnd"   -> RunEnd /\ Ev.r = (IF termSeen THEN "local choice" ELSE "link disruption")
-      [] Ev.a = "Listen"   -> CardListen /\ Ev.r = (IF DeviceFails THEN "error"
+      [] Ev.a = "Listen"   -> CardListen /\ Ev.r = (IF ListenFails THEN "error"
                                                      ELSE IF cfg.env = "reader" /\ ~gone THEN "reader" ELSE "none")
       [] Ev.a = "Serve"    -> Serve /\ Ev.r = B(envk > 0)
       [] Ev.a = "Return"   -> Return /\ Ev.r = RetVal
@@ -65,13 +67,18 @@ PostOk == /\ polls' = Ev.polls
           /\ Len(cb') = Ev.ncb
           /\ led' = Ev.led
 
-InvNames == <<"Order", "ReleaseIff", "ReturnValue", "Prompt", "Led", "MuteWhenNone">>
+InvNames == <<"Order", "ReleaseIff", "ReturnValue", "Prompt", "Led", "MuteWhenNone", "TargetFresh">>
 InvP(n) == CASE n = "Order" -> OrderP(cb')
              [] n = "ReleaseIff" -> ReleaseIffP(cb', pc' = "done")
              [] n = "ReturnValue" -> ReturnValueP(pc', ret', cb', left', err', termSeen')
              [] n = "Prompt" -> PromptP(after', lateWork')
              [] n = "Led" -> LedP(pc', led')
              [] n = "MuteWhenNone" -> ((Ev.a = "Sense" /\ Ev.r = "none") => ~Ev.field)   \* device field after sense()
+             \* clf.target right after connect()'s own sense() / listen() call: what that call found, and None
+             \* if it found nothing, also when it ended in an exception (never a target of an earlier call)
+             [] n = "TargetFresh" ->
+                   /\ (Ev.a = "Sense" => Ev.target = (IF Ev.r \in {"tag", "dep"} THEN "remote" ELSE "none"))
+                   /\ (Ev.a = "Listen" => Ev.target = (IF Ev.r = "reader" THEN "local" ELSE "none"))
 AllInv == \A i \in DOMAIN InvNames : InvP(InvNames[i])
 
 Real == Guarded /\ PostOk /\ AllInv
